@@ -49,7 +49,7 @@ func c04(r *hx.Run) {
 	fx.Quiet()
 	client, v := stdClient()
 	delta := v.P.MaxOperationTimeDelta
-	r.Rule = "(i) every history of <=3 operations after the create (chain-building alphabet, coordinates 2.0,2.1,3.0) that the reference (and, checked, the real processor) resolves as deactivated is extended by every 1 (all pool operations incl. forged and creates; anchored later, or unpublished with a later / earlier time stamp) and every 2 (legitimate alphabet; thorough: all) later-anchored operations: result must stay deactivated, empty, without commitments and otherwise unchanged; (ii) for each such state a real DocumentHandler with its default decorator must refuse every non-create request and leave queue and unpublished store untouched; (iii) for every history with a recover, removing every subset of updates anchored at or before the last applied recover must not change the result; (iv) every history of <=3 published / unpublished operations over updates and recovers that re-commit to an update commitment used before equals the reference. Non-trivial: distinct (base state, extension) pairs whose extension parses."
+	r.Rule = "(i) every history of <=3 operations after the create (chain-building alphabet, coordinates 2.0,2.1,3.0) that the reference (and, checked, the real processor) resolves as deactivated is extended by every 1 (all pool operations incl. forged and creates; anchored later, or unpublished with a later / earlier time stamp) and every 2 (legitimate alphabet; thorough: all) later-anchored operations: result must stay deactivated, empty, without commitments and otherwise unchanged (also when an operation of the deactivated history is supplied by the caller through WithAdditionalOperations while a later recover / create sits in the store); (ii) for each such state a real DocumentHandler with its default decorator must refuse every non-create request and leave queue and unpublished store untouched; (iii) for every history with a recover, removing every subset of updates anchored at or before the last applied recover must not change the result; (iv) every history of <=3 published / unpublished operations over updates and recovers that re-commit to an update commitment used before equals the reference. Non-trivial: distinct (base state, extension) pairs whose extension parses."
 	pool := fx.NewPool(fx.Ed25519, fx.SHA256, "ok")
 	all := opIDs(pool, func(*fx.PoolOp) bool { return true })
 	legit := opIDs(pool, isLegit)
@@ -178,6 +178,29 @@ func c04(r *hx.Run) {
 			// the competing operation was anchored): anchored operations take precedence whatever its time stamp says
 			try([]fx.Placed{{Op: pool.Get(id), Time: 1, Num: 0, Published: false}})
 			try([]fx.Placed{{Op: pool.Get(id), Time: 2, Num: 0, Published: false}})
+		}
+		// each operation of the deactivated history in turn reaches the processor through WithAdditionalOperations (not yet in this
+		// node's store) while a later recover / create is in the store: still deactivated
+		if si%3 == 0 || r.Tier == "thorough" {
+			for k := range s {
+				for _, id := range all {
+					if o := pool.Get(id); o.Type != operation.TypeRecover && o.Type != operation.TypeCreate {
+						continue
+					}
+					caseID := fmt.Sprintf("deact|%s|moved=%d|+|%s@4.0p", HistKey(s), k, id)
+					if !r.Want(caseID) {
+						continue
+					}
+					withExt := append(append([]fx.Placed{}, s...), fx.Placed{Op: pool.Get(id), Time: 4, Num: 0, Published: true})
+					rmM, errM := c02ResolveMoved(client, pool.Suffix, withExt, k)
+					r.Eval()
+					if gotM := ProjectImpl(rmM, errM); gotM != base {
+						r.Violation("deactivation-not-terminal:operation-from-the-caller:"+diffFields(gotM, base), caseID,
+							fmt.Sprintf("deactivated history %v with operation %d passed through WithAdditionalOperations and %s anchored later in the store\n  after : %s\n  before: %s", placedDesc(s), k, id, gotM, base), nil)
+						break
+					}
+				}
+			}
 		}
 		for _, a := range pairAlpha {
 			if r.Tier == "quick" && si%6 != 0 {
